@@ -44,15 +44,15 @@ CLAIMED = {
          "Expected outcome is known by construction from the generated value; atomicity is a snapshot comparison; Build's stop-at-first-error is checked with recording setters.",
          "Limits are the library's documented constants (D5); codes 300..699 without a default reason may be accepted or refused.",
          "DESIGN.md section 4, C09"),
- "C10": ("model-based testing of the real Client in a controlled world (scripted connection, virtual clock, manual collector, delegating agent - public options only): exhaustive small-depth histories, rapid histories checked step by step against an abstract transaction-table model, named targeted interleavings through the control points, and randomized concurrent stress under the race detector",
+ "C10": ("model-based testing of the real Client in a controlled world (scripted connection, virtual clock, manual collector, delegating agent - public options only): exhaustive small-depth histories, rapid histories checked step by step against an abstract transaction-table model, named targeted interleavings through the control points (each followed by a pool-integrity probe), a pairwise interleaving explorer (two client operations parked at every call-out of the client, depth-first search over the merges of their gate sequences, late launch and atomic insertion, non-waiting collector, id reuse from inside / right after a handler, an aftermath that reuses the id and runs the clock past every deadline), and randomized concurrent stress under the race detector",
          "Histories are generated (exhaustively to a depth bound, randomly beyond) and every step's return value, handler invocations and written datagrams are compared with a reference model; schedules are sampled, with a set of named interleavings forced deterministically.",
          "Sequential histories are decided by the model; concurrent schedules are sampled by the Go scheduler between the harness's control points (absence of schedule-dependent violations is not established). Connection is causal (D4).",
          "DESIGN.md section 4, C10; appendix B, C"),
- "C11": ("model-based testing on the same engine with generators focused on retransmission: sizes 20..65532, RTOs 1 ns..10 s, collects just before/at/after every deadline, SetRTO and caller-side buffer reuse; oracle over the connection's write log with virtual time stamps",
+ "C11": ("model-based testing on the same engine with generators focused on retransmission: sizes 20..65532, RTOs 1 ns..10 s, collects just before/at/after every deadline, SetRTO and caller-side buffer reuse; oracle over the connection's write log with virtual time stamps; plus two gated scenarios: a retransmission write parked inside the connection while the transaction ends and pooled objects (or the id itself) are reused, and the built-in ticker collector driven by an injected clock",
          "Write log (bytes and virtual time) is compared with the model's schedule for generated histories, including complete schedules up to the final timeout for boundary sizes.",
          "Attempt limits other than 0 and 7 are not configurable from outside the package.",
          "DESIGN.md section 4, C11"),
- "C12": ("model-based testing on the same engine with worlds of 1..500 concurrently in-flight transactions, near-colliding ids, random response permutations with duplicates/unknown ids/garbage, several rounds per client to recycle pooled objects",
+ "C12": ("model-based testing on the same engine with worlds of 1..500 concurrently in-flight transactions, near-colliding ids, random response permutations with duplicates/unknown ids/garbage, several rounds per client to recycle pooled objects, transient Read errors; plus the interleaving explorer with a delivery assertion (a response that arrives while its transaction is in flight reaches that transaction's handler, whatever the other goroutine is doing)",
          "Every handler invocation must carry its own id and exactly the delivered datagram; unmatched datagrams go only to the fallback handler; compared against the model after every delivered datagram.",
          "Two live transactions never share an id (D4); concurrency inside the client is covered by the C10/C15 stress, routing here is checked on harness-ordered deliveries.",
          "DESIGN.md section 4, C12"),
@@ -64,7 +64,7 @@ CLAIMED = {
          "Generated multi-goroutine call plans (with re-entrant handlers) are executed; recorded histories are checked with a linearizability checker against the reference model.",
          "Interleavings are chosen by the Go scheduler (sampled); porcupine timeouts are counted as inconclusive.",
          "DESIGN.md section 4, C14"),
- "C15": ("property-based testing of Close: deterministic histories over option combinations and injected close errors on the C10 engine, the built-in ticker collector, and randomized concurrent Start/Do/Indicate/SetRTO/Close under the race detector with goroutine-stack leak inspection",
+ "C15": ("property-based testing of Close: deterministic histories over option combinations and injected close errors on the C10 engine, the built-in ticker collector (also parked inside its tick, with an hour-long tick rate, with non-positive RTOs), connections whose Write blocks until they are closed, Close with thousands of transactions in flight, the interleaving explorer for every pair involving Close, and randomized concurrent Start/Do/Indicate/SetRTO/Close under the race detector with goroutine-stack leak inspection",
          "Return values, close counts, handler stamps, goroutine stacks and race reports are checked on generated histories and sampled concurrent schedules.",
          "Collector Close succeeds and Read eventually returns under WithNoConnClose (the property's preconditions); schedules are sampled.",
          "DESIGN.md section 4, C15"),
